@@ -327,6 +327,58 @@ def h_pipeline(ctx):
     ctx.prove('ROADM reachability unchanged', new_reach == orig_reach, info=desc)
 
 
+def h_raman_span(ctx):
+    """auto-design of a line containing a RamanFiber span in every position relative to amplifiers (after a ROADM, after an
+    operator amplifier, after an amplifier the design has to choose, followed by another fibre), power and gain mode: the
+    design completes, every amplifier is complete, the Raman span is not padded"""
+    from gnpy.core.elements import Edfa, RamanFiber, Fiber
+    eqpt = deepcopy(equipment())
+    variant = ctx.choice('position of the Raman span', ['after ROADM', 'after operator amplifier', 'after auto amplifier', 'before a fibre'])
+    eqpt['Span']['default'].power_mode = ctx.choice('Span power_mode', [True, False])
+    loc = {'location': {'city': 'x', 'region': '', 'latitude': 0, 'longitude': 0}}
+    rf = {'uid': 'rf', 'type': 'RamanFiber', 'type_variety': 'SSMF', 'metadata': loc,
+          'params': {'length': 80, 'length_units': 'km', 'loss_coef': 0.2, 'con_in': 0.5, 'con_out': 0.5},
+          'operational': {'temperature': 283, 'raman_pumps': [{'power': 0.2, 'frequency': 205e12, 'propagation_direction': 'counterprop'}]}}
+    fib = lambda u: {'uid': u, 'type': 'Fiber', 'type_variety': 'SSMF', 'metadata': loc,      # noqa
+                     'params': {'length': 80, 'length_units': 'km', 'loss_coef': 0.2}}
+    els = [{'uid': f'trx {s}', 'type': 'Transceiver', 'metadata': loc} for s in 'AB'] + \
+          [{'uid': f'roadm {s}', 'type': 'Roadm', 'metadata': loc} for s in 'AB'] + [rf, fib('back')]
+    cx = [('trx A', 'roadm A'), ('roadm A', 'trx A'), ('trx B', 'roadm B'), ('roadm B', 'trx B'), ('roadm B', 'back'), ('back', 'roadm A')]
+    if variant == 'after ROADM':
+        cx += [('roadm A', 'rf'), ('rf', 'roadm B')]
+    elif variant == 'after operator amplifier':
+        els.append({'uid': 'amp', 'type': 'Edfa', 'type_variety': 'std_medium_gain', 'metadata': loc,
+                    'operational': {'gain_target': 20, 'tilt_target': 0, 'out_voa': 0}})
+        cx += [('roadm A', 'amp'), ('amp', 'rf'), ('rf', 'roadm B')]
+    elif variant == 'after auto amplifier':
+        els += [fib('f0'), {'uid': 'amp', 'type': 'Edfa', 'metadata': loc}]
+        cx += [('roadm A', 'f0'), ('f0', 'amp'), ('amp', 'rf'), ('rf', 'roadm B')]
+    else:
+        els.append(fib('f1'))
+        cx += [('roadm A', 'rf'), ('rf', 'f1'), ('f1', 'roadm B')]
+    g, by = build_elements(els, eqpt, connections=[{'from_node': a, 'to_node': b} for a, b in cx])
+    info = dict(variant=variant, power_mode=eqpt['Span']['default'].power_mode)
+    try:
+        design(g, eqpt)
+        err = None
+    except Exception as e:      # noqa
+        err = f'{type(e).__name__}: {e}'
+    ctx.prove('auto-design completes on a line with a Raman span', err is None, info=dict(info, error=err))
+    if err is not None:
+        return
+    for x in g.nodes():
+        if isinstance(x, Edfa):
+            ctx.prove('amplifier has a library model, a gain and an output VOA', bool(x.params.type_variety) and x.effective_gain is not None
+                      and x.out_voa is not None, info=dict(info, amp=x.uid))
+        if isinstance(x, RamanFiber):
+            ctx.prove('Raman span is not padded', float(x.params.att_in) == 0.0, info=info)
+        if isinstance(x, Fiber):
+            ctx.prove('one-in/one-out', g.in_degree(x) == 1 and g.out_degree(x) == 1, info=info)
+    for a, b in g.edges():
+        if isinstance(a, Fiber) and isinstance(b, Fiber):
+            ctx.prove('no fibre-to-fibre junction left without amplifier', False, info=dict(info, a=a.uid, b=b.uid))
+
+
 def jobs(tier):
     js = []
     for max_km, pad in ((150, 10), (100, 12), (100, 10)):
@@ -339,6 +391,8 @@ def jobs(tier):
                            continue_after_violation=fibre == 'lumped_losses'))
     for layout in ('single', 'spliced', 'two_spans'):
         js.append(dict(name=f'H8c:connectors_and_padding:{layout}', fn='h_padding', params=dict(layout=layout), cost=60))
+    js.append(dict(name='H8e:raman_span_in_every_position', fn='h_raman_span', cost=150, witness_every=1,
+                   budget_s=250 if tier == 'quick' else 600, continue_after_violation=True))
     # every amplifier gets a model: the selection itself never fails internally, for any required gain and power
     for lib in ('vg3', 'lowpower+highgainmin', 'vg+fixed+highpower'):
         js.append(dict(name=f'H8d:amplifier_selection_always_answers:{lib}', module='harness.c10', fn='h_select',
